@@ -172,6 +172,51 @@ def corr_scores(a, b):
     return corr_pearson(normal_scores(a), normal_scores(b))
 
 
+def corr_max(E, cols_a, cols_b=None, max_cols=150):
+    """Worst pairwise rank (normal-score) correlation between two sets of columns of E (within one set if cols_b is
+    None), with a Bonferroni-adjusted two-sided p-value. Returns (p, detail, (a, b)) or (None, reason, None)."""
+    E = np.asarray(E, dtype=float)
+    n = E.shape[0]
+
+    def pick(cols):
+        cols = [c for c in cols if np.ptp(E[:, c]) > 0]
+        if len(cols) > max_cols:
+            idx = np.unique(np.linspace(0, len(cols) - 1, max_cols).astype(int))
+            cols = [cols[i] for i in idx]
+        return cols
+    ca = pick(list(cols_a))
+    cb = ca if cols_b is None else pick(list(cols_b))
+    if n < 10 or not ca or not cb:
+        return None, 'nothing to compare', None
+    if not np.all(np.isfinite(E[:, sorted(set(ca) | set(cb))])):
+        return 0.0, 'non-finite value', None
+
+    def scores(cols):
+        Z = np.column_stack([normal_scores(E[:, c]) for c in cols])
+        Z = Z - Z.mean(axis=0)
+        return Z / np.sqrt(np.sum(Z * Z, axis=0))
+    A = scores(ca)
+    B = A if cols_b is None else scores(cb)
+    R = A.T @ B
+    if cols_b is None:
+        R = np.triu(R, k=1)
+        n_pairs = len(ca) * (len(ca) - 1) // 2
+    else:
+        same = np.array([[a == b for b in cb] for a in ca])
+        R = np.where(same, 0.0, R)
+        n_pairs = int(np.sum(~same))
+    if n_pairs == 0:
+        return None, 'nothing to compare', None
+    i, j = np.unravel_index(int(np.argmax(np.abs(R))), R.shape)
+    r = float(R[i, j])
+    if abs(r) >= 1.0 - 1e-12:
+        return 0.0, 'columns %d and %d: correlation %.6f (n=%d): identical up to scale' % (ca[i], cb[j], r, n), (ca[i], cb[j])
+    t = r * math.sqrt((n - 2) / (1.0 - r * r))
+    p1 = _norm_two_sided(t) if n > 1000 else float(2 * sps.t.sf(abs(t), n - 2))
+    return min(1.0, p1 * n_pairs), 'largest of %d pairwise correlations: columns %d and %d, r=%.5f (n=%d), p=%.3g before ' \
+        'the Bonferroni factor' % (n_pairs, ca[i], cb[j], r, n, p1), (ca[i], cb[j])
+
+
 # ---------------------------------------------------------------------------------------------
 # two-stage driver
 # ---------------------------------------------------------------------------------------------
